@@ -182,6 +182,17 @@ Proof.
   rewrite (H O j) by lia. rewrite (IH (minor A j) (minor B j)) by (apply minor_meq; exact H). reflexivity.
 Qed.
 
+Lemma csum_red_eq : forall n f, ceq (csum_red n f) (csum n f).
+Proof. induction n as [|n IH]; intro f; simpl; [reflexivity | rewrite cred_eq, IH; reflexivity]. Qed.
+
+Lemma mdetr_eq : forall n A, ceq (mdetr n A) (mdet n A).
+Proof.
+  induction n as [|n IH]; intro A; [reflexivity|].
+  change (mdetr (S n) A) with (csum_red (S n) (fun j => alt j (cred (cmul (A O j) (mdetr n (minor A j)))))).
+  change (mdet (S n) A) with (csum (S n) (fun j => alt j (cmul (A O j) (mdet n (minor A j))))).
+  rewrite csum_red_eq. apply csum_ext. intros j Hj. apply alt_ext. rewrite cred_eq, IH. reflexivity.
+Qed.
+
 (* det (c A) = c^n det A *)
 Lemma mdet_scale : forall n c A, ceq (mdet n (mscale c A)) (cmul (cpow c n) (mdet n A)).
 Proof.
